@@ -62,6 +62,20 @@ def gen(rng, tier):
         else:
             spec = lc.random_circuit(rng, max_ops=12, p_marker=0.35)
         inputs.append({"kind": "modes", "spec": spec})
+    # several labelled barriers on disjoint qubit groups reach the front layer together: each one must still get its own column
+    for _ in range({"quick": 3, "thorough": 20, "search": 6}.get(tier, 3)):
+        n = rng.choice([4, 5, 6])
+        cut = rng.randrange(2, n - 1)
+        # nothing, or one one-qubit gate on every qubit, before the barriers: both barriers then become front in the same layer
+        ops = []
+        if rng.random() < 0.5:
+            for q in range(n):
+                g = lc.random_gate(rng, n, "one")
+                ops.append(dict(g, q=q))
+        ops += [{"op": "b", "qs": list(range(0, cut)), "label": lc.random_label(rng, "strict")},
+                {"op": "b", "qs": list(range(cut, n)), "label": lc.random_label(rng, "strict")}]
+        ops += [lc.random_gate(rng, n) for _ in range(rng.randrange(1, 4))]
+        inputs.append({"kind": "modes", "spec": {"n": n, "init": rng.choice(lc.INITS), "ops": ops}})
     for _ in range(n_front):
         inputs.append({"kind": "front", "spec": lc.random_circuit(rng, nmax=7, max_ops=14, p_marker=0.5)})
     for _ in range(n_count):
